@@ -177,9 +177,9 @@ fn may_alias(first: &[AccessType], second: &[AccessType]) -> bool {
 /// the expression (otherwise `r[0]` and `r[1]` would be identified then).
 fn index_value(index: &Expression) -> Option<BigInt> {
     use ValueReduction::*;
-    match (index, index.value()) {
-        (Expression::Number(_, value), _) => Some(value.clone()),
-        (_, Some(FieldElement { value })) => Some(value.clone()),
+    match (index.value(), index) {
+        (Some(FieldElement { value }), _) => Some(value.clone()),
+        (None, Expression::Number(_, value)) => Some(value.clone()),
         _ => None,
     }
 }
